@@ -37,6 +37,20 @@ thread_local! {
     /// Rolling hash of the hook sites hit during the current call: the path the library
     /// took. A function of the call alone on a tree where calls are pure.
     static CALLSIG: Cell<u64> = const { Cell::new(0) };
+    static JUMP_AT: Cell<u64> = const { Cell::new(0) };
+    static JUMP_MS: Cell<u64> = const { Cell::new(0) };
+    static JUMPS_FIRED: Cell<u64> = const { Cell::new(0) };
+}
+
+/// F11: make the simulated clock jump by `ms` at the `step`-th hook hit of the next call
+/// (0 disarms).
+pub fn arm_jump(step: u64, ms: u64) {
+    JUMP_AT.with(|j| j.set(step));
+    JUMP_MS.with(|j| j.set(ms));
+}
+
+pub fn take_jumps_fired() -> u64 {
+    JUMPS_FIRED.with(|j| j.replace(0))
 }
 
 /// Path signature of the most recent guarded call on this thread.
@@ -108,6 +122,11 @@ fn on_step(site_id: u32) {
     if s > STEP_BUDGET {
         ACTIVE.with(|a| a.set(false));
         std::panic::resume_unwind(Box::new(SimUnwind::Diverged));
+    }
+    if s == JUMP_AT.with(|j| j.get()) {
+        JUMP_AT.with(|j| j.set(0));
+        crate::clock::jump_ms(JUMP_MS.with(|j| j.get()));
+        JUMPS_FIRED.with(|j| j.set(j.get() + 1));
     }
     if s == CRASH_AT.with(|c| c.get()) {
         ACTIVE.with(|a| a.set(false));
